@@ -63,5 +63,6 @@ Definition multi_bw_doms (m : R) (res : list (R * R)) : list C := map (fun r => 
 (* as documented: a combination of constant-width Breit-Wigners *)
 Definition MultiBW_doc (m q2 q02 : R) (ls : list nat) (d : R) (res : list (R * R)) (coeff : list (list C)) (i : nat) : C :=
   MultiBWR_from (ls_barrier (nth i ls 0%nat) q2 q02 d) (nth i coeff []) (multi_bw_doms m res).
-(* as coded: dom_fun is never called, get_ls_amp is inherited unchanged *)
+(* as coded BEFORE /repo fix 4a6337b: dom_fun was never called, get_ls_amp was inherited unchanged (old model, kept for the
+   refutation theorem); since the fix the code is MultiBW_doc, which is what the tie compares against *)
 Definition MultiBW_code := MultiBWR.
